@@ -1138,6 +1138,22 @@ def check_memo_keys(ctx):
                     for y in subnodes(cfg, nd):
                         if isinstance(y, ast.Name) and isinstance(y.ctx, ast.Store) and y.id in deps:
                             bad = (y.id, nd.lineno)
+            # every arm of a computed key is live: in `A if t1 else B if t2 else C` t2 must not be the plain negation (or a repetition) of t1,
+            # otherwise two argument values share one slot and the third key is never used
+            dead = None
+            e = kd.value
+            seen_tests = []
+            while isinstance(e, ast.IfExp):
+                t = e.test
+                for pt in seen_tests:
+                    if norm(t) == norm(pt) or (isinstance(t, ast.UnaryOp) and isinstance(t.op, ast.Not) and norm(t.operand) == norm(pt)) or \
+                            (isinstance(pt, ast.UnaryOp) and isinstance(pt.op, ast.Not) and norm(pt.operand) == norm(t)):
+                        dead = norm(e.orelse if not norm(t) == norm(pt) else e.body, 30)
+                seen_tests.append(t)
+                e = e.orelse
+            ctx.check('R2.8', dead is None, fi.module, fi.qualname, f'{key} = {norm(kd.value, 60)} (arms)',
+                      f'the key expression can never evaluate to {dead}: a test repeats / negates an earlier one, so two different argument values are '
+                      f'filed under the same key and the answer computed for one is served for the other', kd.lineno)
             ctx.check('R2.8', bad is None, fi.module, fi.qualname, f'{key} = {norm(kd.value, 60)}',
                       f'`{bad[0] if bad else ""}` is rebound (line {bad[1] if bad else 0}) after the memo key was built from it and before the result is stored '
                       f'under that key: the result computed for the new value is served to later calls that ask with the old one', st.lineno,
